@@ -207,6 +207,9 @@ class AGen:
         return an, t
 
 
+ALTERED = []
+
+
 def build(an):
     """annotated node -> cola operator built with constructors + declaration wrappers"""
     import cola
@@ -242,7 +245,11 @@ def build(an):
     elif x == "sliced":
         A = ops.Sliced(build(an["a"]), (_sel(an["rs"], an.get("ia")), _sel(an["cs"], an.get("ia"))))
     for d in an.get("decl", []):
-        A = getattr(cola, d)(A)
+        before = set(A.annotations)
+        B = getattr(cola, d)(A)
+        if set(A.annotations) != before:       # "declaring a property ... does not alter the operator it was applied to"
+            ALTERED.append(f"{d}(...) changed the annotations of its operand from {sorted(a.__name__ for a in before)} to {sorted(a.__name__ for a in A.annotations)}")
+        A = B
     return A
 
 
@@ -422,6 +429,13 @@ def routine_stream(ctx, present):
                 calls.append((f"svd(Dense {shape_nm} {M.shape} cplx={cplx}, k={kk}, {alg_nm})", "svd", lambda M=M, kk=kk, alg=alg: _svd(ops.Dense(M), kk, "LM", alg)))
         calls.append((f"svd(Diagonal n={n} cplx={cplx}, k={k})", "svd", lambda dg=dg, k=k: _svd(ops.Diagonal(dg), k)))
         calls.append((f"svd(Identity n={n}, k={k})", "svd", lambda n=n, k=k: _svd(ops.Identity((n, n), np.float64), k)))
+        dg0 = dg.copy()
+        dg0[rnd.randint(0, n)] = 0                       # exact zeros (masks, projections): phases / normalisations of 0
+        for wh in ("LM", "SM"):
+            calls.append((f"svd(Diagonal with a zero entry n={n} cplx={cplx}, k={k}, {wh})", "svd", lambda dg0=dg0, k=k, wh=wh: _svd(ops.Diagonal(dg0), k, wh)))
+            calls.append((f"eig(Diagonal with a zero entry n={n} cplx={cplx}, k={k}, {wh})", "eig_struct" if k < n else "eig_struct_full",
+                          lambda dg0=dg0, k=k, wh=wh: la.eig(ops.Diagonal(dg0), k, wh)[1]))
+        calls.append((f"svd(Dense rank-deficient n={n} cplx={cplx})", "svd", lambda G=G, n=n: _svd(ops.Dense(G[:, :1] @ G[:1, :]), n)))
         for fn_nm, fn in (("exp", la.exp), ("sqrt", la.sqrt), ("log", la.log), ("isqrt", la.isqrt)):
             for alg_nm, alg in (("Auto", la.Auto()), ("Eigh", la.Eigh()), ("Lanczos", la.Lanczos(max_iters=n)), ("Eig", la.Eig()), ("Arnoldi", la.Arnoldi(max_iters=n))):
                 calls.append((f"{fn_nm}(PSD n={n} cplx={cplx}, {alg_nm})", "unary", lambda fn=fn, P_=P_, alg=alg: fn(P_, alg)))
@@ -520,7 +534,9 @@ def run(ctx):
     obs = []
     for c in cases:
         try:
+            del ALTERED[:]
             A = build(c["an"])
+            c["altered"] = list(ALTERED)
             c["got"] = sorted(a.__name__ for a in A.annotations)
             Dd = np.asarray(A.to_dense())
             c["dense_ok"] = bool(np.array_equal(Dd.astype(complex), T.dense(c["tree"])))
@@ -573,6 +589,8 @@ def run(ctx):
         bad = []
         if not c["dense_ok"]:
             bad.append("declaring annotations changed the represented matrix")
+        if c.get("altered"):
+            bad.append("declaring altered the operator it was applied to: " + c["altered"][0])
         for cc, b in untrue:
             if cc is c:
                 rep = repaired_sets.get(id(c))
